@@ -190,6 +190,7 @@ def run(ctx):
 
     conn = a3(ctx, R)
     a8(ctx, R)
+    a9(ctx, R)
 
     # ---- A4 connect ordering --------------------------------------------------
     ctx.rule("A4", "connect: the authenticator is reached only with starttls false or after the TLS upgrade returned True")
@@ -339,6 +340,10 @@ def run(ctx):
         if isinstance(n, ast.Call) and isinstance(n.func, ast.Attribute) and n.func.attr == "clear" \
                 and isinstance(n.func.value, ast.Attribute) and n.func.value.attr == cap_attr:
             clear_nodes.extend(cfgt.node_containing(n))
+    from .c05 import is_buffer_reset
+    for n in walk_no_nested(tls.node):
+        if isinstance(n, (ast.Delete, ast.Expr, ast.Assign)) and is_buffer_reset(ctx, R, tls, n):
+            bufreset_nodes.extend(cfgt.nodes_for(n))
     for c in self_calls(tls, capreader.name):
         reread_nodes.extend(cfgt.node_containing(c))
     for tr in true_returns:
@@ -519,6 +524,9 @@ def a8(ctx, R):
                         caps.extend(cfgc.nodes_for(n))
                     if mangle(R.cls.name, t.attr) == R.buffer_attr and empty:
                         bufs.extend(cfgc.nodes_for(n))
+        from .c05 import is_buffer_reset
+        if isinstance(n, (ast.Delete, ast.Expr, ast.Assign)) and is_buffer_reset(ctx, R, conn, n):
+            bufs.extend(cfgc.nodes_for(n))
         if isinstance(n, ast.Call) and isinstance(n.func, ast.Attribute) and n.func.attr == "clear" and isinstance(n.func.value, ast.Attribute) \
                 and n.func.value.attr == cap_attr:
             caps.extend(cfgc.node_containing(n))
@@ -533,6 +541,43 @@ def a8(ctx, R):
         else:
             ctx.violation("A8", conn, key, "connect() reads the new connection without having emptied the %s: what the previous "
                           "connection left there is attributed to this one" % what, node=conn.node, witness=wit)
+
+
+def a9(ctx, R):
+    """What a Client remembers about its session (flag, capabilities, buffer) is that object's own: nothing of it lives in a mutable
+    object shared by every Client (class-level dict / list, mutable default argument)."""
+    ctx.rule("A9", "session state is per Client object (no class-level or default-argument container is written)")
+    MUT = {"append", "extend", "insert", "remove", "pop", "clear", "update", "setdefault", "add", "discard", "popitem", "sort"}
+    shared = {}
+    for nm, v in R.cls.attrs.items():
+        if isinstance(v, (ast.Dict, ast.List, ast.Set)) or (isinstance(v, ast.Call) and call_name(v) in ("dict", "list", "set", "defaultdict", "OrderedDict")):
+            shared[nm] = "class attribute %s.%s" % (R.cls.name, nm)
+    bad = []
+    for f in R.methods.values():
+        defaults = {p: d for p, d in f.defaults().items() if isinstance(d, (ast.Dict, ast.List, ast.Set))}
+        for n in walk_no_nested(f.node):
+            tgt = None
+            if isinstance(n, ast.Subscript) and isinstance(n.ctx, (ast.Store, ast.Del)):
+                tgt = n.value
+            elif isinstance(n, ast.Call) and isinstance(n.func, ast.Attribute) and n.func.attr in MUT:
+                tgt = n.func.value
+            elif isinstance(n, ast.AugAssign):
+                tgt = n.target
+            if tgt is None:
+                continue
+            if isinstance(tgt, ast.Attribute) and tgt.attr in shared and isinstance(tgt.value, ast.Name):
+                # self.x where x is never bound on the instance refers to the class-level object
+                inst_bound = any(isinstance(a, ast.Attribute) and a.attr == tgt.attr and isinstance(a.ctx, ast.Store) and isinstance(a._parent, (ast.Assign, ast.AnnAssign))
+                                 for g in R.methods.values() for a in walk_no_nested(g.node))
+                if not inst_bound:
+                    bad.append((f, n, shared[tgt.attr]))
+            if isinstance(tgt, ast.Name) and tgt.id in defaults:
+                bad.append((f, n, "mutable default of parameter %s" % tgt.id))
+    for f, n, what in bad:
+        ctx.violation("A9", f, "shared-session-state:%s" % what, "%s modifies the %s, which every Client object (and every call) shares" % (
+            f.qualname, what), node=n, witness="client B's login is refused, client A logs in: B.listscripts() is written on B's unauthenticated connection")
+    if not bad:
+        ctx.holds("A9", "no method of %s writes a class-level container or a mutable default (%d class-level containers)" % (R.cls.name, len(shared)))
 
 
 def status_paths(ctx, R, f, extra_oracle=None):
